@@ -40,6 +40,36 @@ Proof.
 Qed.
 Print Assumptions required_under_map_unchecked_refuted.
 
+(* every reference is checked, not only the first per type: the `validated` memo is keyed
+   by the attribute, so EVERY attribute that can be reached from a method payload / result
+   through object fields and array elements is visited, and an accepted design has no
+   attribute - first, middle or last of several of the same result type - whose View names
+   a view its type does not define *)
+Theorem every_reachable_attribute_is_visited g roots n :
+  reach (validate_children g) roots n -> In n (reachable_nodes g roots).
+Proof. exact (reachable_complete g roots n). Qed.
+Print Assumptions every_reachable_attribute_is_visited.
+
+Theorem accepted_attribute_views_resolve d :
+  validate d = [] ->
+  forall n a v, reach (validate_children (d_graph d)) (d_roots d) n ->
+    nth_error (d_attrs d) n = Some a -> a_view a = Some v -> resolves (RAttrView (d_attrs d) n v).
+Proof. exact (reachable_attr_checked d). Qed.
+Print Assumptions accepted_attribute_views_resolve.
+
+(* with the memo keyed by the TYPE of the attribute ("validate a user type only once")
+   the recursion still stops but the second attribute of a result type is never looked
+   at: its undefined view goes unreported, while the attribute-keyed traversal reports it *)
+Theorem type_keyed_memo_skips_refuted :
+  exists g ats roots,
+    flat_map (attr_errors ats) (visited_keyed (type_key g) g roots) = [] /\
+    flat_map (attr_errors ats) (reachable_nodes g roots) <> [].
+Proof.
+  exists twice_graph, twice_attrs, [0]. destruct type_keyed_memo_skips as [H1 [_ H3]].
+  split; [exact H1|]. rewrite H3. discriminate.
+Qed.
+Print Assumptions type_keyed_memo_skips_refuted.
+
 (* errors recorded while the DSL runs end the evaluation before validation *)
 Theorem errors_stop_validation d : dsl_errors d <> [] -> validate d = dsl_errors d.
 Proof. unfold validate. destruct (dsl_errors d); [congruence|reflexivity]. Qed.
@@ -181,7 +211,7 @@ Print Assumptions table_agrees_with_documented.
 (* Payload { a }, Header("zzz"): rejected with exactly that error. names a = 1, zzz = 9 *)
 Example dangling_header_rejected :
   let m := mkM (SObj [1]) [] (mkR SEmpty None None) [] [] (Some (mkH [] [] [9] [] BDefault None [] [])) in
-  validate (mkD [] [] [] [] [] [mkS [] [] [] [m]] [mkN (KObj [(1, 1)]) None [] []; mkN KPrim None [] []] [0]) = [EHeader 9].
+  validate (mkD [] [] [] [] [] [mkS [] [] [] [m]] [mkN (KObj [(1, 1)]) None [] []; mkN KPrim None [] []] [0] []) = [EHeader 9].
 Proof. vm_compute. reflexivity. Qed.
 
 (* two mutually recursive types A { b: B; Required("zzz") }, B { a: ArrayOf(A) }: the
@@ -202,7 +232,7 @@ Proof. split; [vm_compute; reflexivity|eexists; split; vm_compute; reflexivity].
 Example apikey_of_the_other_scheme_rejected :
   let d c := mkD [] [] [] [mkSc 5 SAPIKey []; mkSc 6 SAPIKey []] []
                  [mkS [] [] [] [mkM (SObj [1]) [c] (mkR SEmpty None None) [] [mkQ [5] []] None]]
-                 [mkN (KObj [(1, 1)]) None [] []; mkN KPrim None [] []] [0] in
+                 [mkN (KObj [(1, 1)]) None [] []; mkN KPrim None [] []] [0] [] in
   validate (d (CKey 6)) = [ENoAPIKey] /\ validate (d (CKey 5)) = [].
 Proof. split; vm_compute; reflexivity. Qed.
 
